@@ -1,0 +1,22 @@
+//go:build verif
+
+package plugin
+
+import "github.com/cloudwego/thriftgo/parser"
+
+// Exports for verification harnesses (include compression is otherwise only reachable through
+// a plugin process whose build info reports a released thriftgo >= v0.4.2).
+
+func VerifCompressThriftInclude(ast *parser.Thrift)   { compressThriftInclude(ast, nil) }
+func VerifDecompressThriftInclude(ast *parser.Thrift) { decompressThriftInclude(ast, nil) }
+func VerifAppendDataTrailer(data []byte, feature uint8) []byte {
+	return appendDataTrailer(data, feature)
+}
+func VerifHasDataTrailerFeature(data []byte, feature uint8) bool {
+	return hasDataTrailerFeature(data, feature)
+}
+func VerifSupportDataTrailer(v string) bool { return supportDataTrailer(v) }
+
+const VerifPluginDataTrailer = pluginDataTrailer
+const VerifFeatureCompressInclude = featureCompressInclude
+const VerifRefFilenamePrefix = refFilenamePrefix
